@@ -150,6 +150,14 @@ PROPS = {
         "trusted_base": TB_COMMON + ["BigUint::nth_root(3) is the floor cube root (modelled by a bisection icbrt)"],
         "assumptions": ASSUME_COMMON,
     },
+    "C12": {
+        "rule": "non-zero decimals of both signs, 1..1500 digits, scales -2000..2000: 2^i 5^j (i<=60, j<=30: terminating reciprocals, at and above their exact length), powers of ten, "
+                "99..9 and 100..01 (reciprocal just above/below a power of ten), 300..1500-digit integers (initial guess through f64 underflow), random; p in {100, 1..5 (emphasis), 1..150, 1..40}; "
+                "7 modes; inverse(-x) under the mirrored mode compared exactly with -inverse(x). Each result is judged exactly: sign, |R*x - 1| < (one unit of the p-th digit)*x, and R*x = 1 "
+                "whenever 1/x has at most p significant digits; and compared exactly with the model (which receives the real f64 initial guess through a hook and records non-termination as a failure).",
+        "trusted_base": TB_COMMON + ["the f64 initial guess (taken from the code through a hook)"],
+        "assumptions": ASSUME_COMMON,
+    },
 }
 
 
